@@ -33,6 +33,10 @@ func IOCodec(rwc io.ReadWriteCloser) *jsonCodec {
 type jsonCodec struct {
 	rwc        io.ReadWriteCloser
 	remoteAddr string
+
+	// dec is kept across ReadMessage calls: a decoder reads ahead, so when two
+	// messages arrive in one read the second one sits in its buffer.
+	dec *json.Decoder
 }
 
 func (codec *jsonCodec) RemoteAddr() string {
@@ -41,7 +45,10 @@ func (codec *jsonCodec) RemoteAddr() string {
 
 func (codec *jsonCodec) ReadMessage() (*Message, error) {
 	var msg Message
-	err := json.NewDecoder(codec.rwc).Decode(&msg)
+	if codec.dec == nil {
+		codec.dec = json.NewDecoder(codec.rwc)
+	}
+	err := codec.dec.Decode(&msg)
 	return &msg, err
 }
 
